@@ -1,4 +1,6 @@
 import SdModel.Model.Derive
+import SdModel.Props.C01
+import SdModel.Props.C03
 
 /-!
 # C17 — the derive accepts every supported declaration and the result obeys C01   (PARTIAL)
@@ -63,5 +65,44 @@ theorem semantics_depends_on_shape_only (d₁ d₂ : StructDecl)
         simp only [List.map_cons, List.cons.injEq, Prod.mk.injEq] at hb
         simp only [fieldTys, hb.1.1, hb.1.2, ih ys hb.2]
   simp only [shapeOf, this _ _ h]
+
+/-- an enum declaration in the supported grammar; the macro treats every enum as one opaque value -/
+structure EnumDecl where
+  vis : Nat
+  name : String
+  generics : List String
+  whereClauses : List String
+  docs : List String
+  foreignAttrs : List String
+  variants : List (String × Nat × List String)     -- (name, 0 unit / 1 tuple / 2 struct, field types as text)
+
+def shapeOfEnum (_ : EnumDecl) : Ty := .enum
+
+/-- whatever its variants, generics and attributes, an enum gets the whole-value semantics -/
+theorem enum_semantics (d : EnumDecl) : semTy (shapeOfEnum d) = enumSem := by simp [shapeOfEnum, semTy]
+
+/-- **the semantic half of C17**: for EVERY struct declaration of the grammar the generated implementation satisfies
+the round-trip guarantee (C01) … -/
+theorem decl_roundtrip (d : StructDecl) (a b : Val) (ha : (relTy (shapeOf d)).wt a) (hb : (relTy (shapeOf d)).wt b) :
+    ∃ r, (semTy (shapeOf d)).apply a ((semTy (shapeOf d)).diff a b) = .ok r ∧ (relTy (shapeOf d)).wt r ∧
+      (relTy (shapeOf d)).post a b r :=
+  C01.roundtrip (shapeOf d) a b ha hb
+
+/-- … and the frame guarantee (C03): any duplicate-free selection of the entries in any order touches only the
+selected fields -/
+theorem decl_frame (d : StructDecl) (a b : Val) (ha : (relTy (shapeOf d)).wt a) (hb : (relTy (shapeOf d)).wt b)
+    (es : Entries) (hsub : ∀ e ∈ es, e ∈ (semTy (shapeOf d)).diff a b) (hnd : (es.map (·.1)).Nodup) :
+    ∃ x y r, a = .strct x ∧ b = .strct y ∧ (semTy (shapeOf d)).apply a es = .ok (.strct r) ∧
+      SWT (relFields (fieldTys d.fields)) r ∧
+      ∀ j e, (relFields (fieldTys d.fields))[j]? = some e → ∃ va vb vr, valAt x j = some va ∧ valAt y j = some vb ∧
+        valAt r j = some vr ∧ (if j ∈ es.map (·.1) then e.2.2.post va vb vr else vr = va) :=
+  C03.subset_any_order (fieldTys d.fields) a b ha hb es hsub hnd
+
+/-- the same for every enum declaration -/
+theorem enum_decl_roundtrip (d : EnumDecl) (a b : Val) :
+    (semTy (shapeOfEnum d)).apply a ((semTy (shapeOfEnum d)).diff a b) = .ok b := by
+  obtain ⟨r, h1, _, h3⟩ := C01.roundtrip (shapeOfEnum d) a b (by simp [shapeOfEnum, relTy, enumRel]) (by simp [shapeOfEnum, relTy, enumRel])
+  have : r = b := by simpa [shapeOfEnum, relTy, enumRel] using h3
+  subst this; exact h1
 
 end C17
